@@ -515,9 +515,18 @@ extern "C" {
   
 #endif
 
+#if defined(MYTH_VERIF)
+  /* verification hook: lets a harness substitute the time stamp counter */
+  unsigned long long myth_verif_dr_clock(unsigned long long real_tsc);
+#endif
+
   static dr_clock_t 
   dr_get_tsc() {
+#if defined(MYTH_VERIF)
+    return myth_verif_dr_clock(dr_rdtsc());
+#else
     return dr_rdtsc();
+#endif
   }
 
   dr_worker_specific_state * dr_make_worker_specific_state(int worker);
